@@ -125,4 +125,37 @@ CLAIMS['C11'] = {
     'technique': 'typestate over statement order, score/polarity abstract interpretation, RNG effect closure',
 }
 
+CLAIMS['C06'] = {
+    'text': 'PARTIAL (three clauses): C(u,v) = C(v,u) for Clayton, Frank and Gumbel through invariance of the associative/commutative '
+            'normal form of each closed form under swapping the arguments (straight-line symbolic evaluation, branches included); '
+            'row independence of the vectorised methods (every reduction over the batch is enumerated; the two/three on the pinned '
+            'tree are triaged with a reason, a new or changed one is a violation); check_fit() -> check_theta() dominates every '
+            'read of theta. Boundary conditions, 2-increasingness, Frechet bounds, generator identity and ordering in theta are '
+            'identities between real functions, out of reach of static analysis, not decided.',
+    'note': NOTE,
+    'technique': 'AC normal form of expressions (syntactic), reduction enumeration with triage table, guard dominance',
+}
+CLAIMS['C07'] = {
+    'text': 'PARTIAL: log_probability_density is np.log(probability_density(X)) for every family; the closed-form densities are '
+            'symmetric in (u,v) (AC normal form); density and conditional CDF evaluate rows independently (triaged reductions). '
+            'h = dC/dv, c = d2C/du dv, ranges, monotonicity and integrals are not decided.',
+    'note': NOTE,
+    'technique': 'AC normal form of expressions, reduction enumeration with triage table',
+}
+CLAIMS['C08'] = {
+    'text': 'PARTIAL: the generic inverse solves one root problem per (y[i], v[i]) in order with nothing carried between iterations; '
+            'the root function is partial_derivative_scalar(u, v_i) - y_i (argument binding checked), returns rank 0 (the rule that '
+            'exposed fixed defect F16) and is bracketed inside [0,1]; Frank/Gumbel/Independence dispatch correctly. That Clayton\'s '
+            'closed form inverts its h-function and monotonicity in y are not decided.',
+    'note': NOTE,
+    'technique': 'loop idioms (element-wise, loop-carried state), closure binding, rank-kind abstract interpretation',
+}
+CLAIMS['C09'] = {
+    'text': 'PARTIAL: two separate U(0,1) draws of length n_samples, u = percent_point(c, v) with the conditioning draw second, '
+            'result column_stack((u, v)) with that same v, n_samples rows, under @random_state. Uniform margins, Kendall tau and '
+            'the joint law of the sample are statistical and not decided.',
+    'note': NOTE,
+    'technique': 'space-kind and length-kind abstract interpretation, argument-wiring check',
+}
+
 NOT_APPLICABLE = {}
